@@ -215,6 +215,10 @@ class Rig:
     def sel(self, s):
         return self.res_names[s[1]] if s[0] == "r" else int(s[1])
 
+    def trainable_idx(self):
+        """name indices of vm.trainable_vars, in that order (the order a value SEQUENCE is assigned in)"""
+        return [self.idx[n] for n in self.vm.trainable_vars]
+
     def pdict(self, items):
         bad = self.np.zeros(3)  # wrong shape: tf.Variable.assign raises
         name = lambda k: self.names[k] if k < len(self.names) else "verif_c17_unknown_%d" % k
@@ -224,6 +228,11 @@ class Rig:
         k = b[0]
         if k == "at":
             return self.amp.temp_params(self.pdict(b[1]))
+        if k == "ats":
+            # sequence form (set_params / VarsManager.set_all accept "either dict or list": one value per trainable
+            # variable, in trainable_vars order); b[2] = [(name index, value id)] in that order
+            seq = [self.pool[v] for _, v in b[2]]
+            return self.amp.temp_params(self.np.asarray(seq) if b[1] == "ndarray" else seq)
         if k == "vt":
             return self.vm.temp_params(self.pdict(b[1]))
         if k == "mp":
@@ -327,7 +336,7 @@ class Rig:
         tags = []
         if prog[0] == "blk":
             b = prog[1]
-            if b[0] == "at" and self.vm.mask_vars:
+            if b[0] in ("at", "ats") and self.vm.mask_vars:
                 tags.append("masked")
             if b[0] == "vt" and any(self.names[k] in self.vm.bnd_dic for k, _ in b[1] if k < len(self.names)):
                 tags.append("bounded")
@@ -366,7 +375,7 @@ class Rig:
 
 
 SITE_NAME = {
-    "at": "AbsPDF.temp_params", "vt": "VarsManager.temp_params", "mp": "mask_params", "ur": "temp_used_res",
+    "at": "AbsPDF.temp_params", "ats": "AbsPDF.temp_params(sequence)", "vt": "VarsManager.temp_params", "mp": "mask_params", "ur": "temp_used_res",
     "g1": "temp_total_gls_one", "tc": "temp_config", "pw": "DecayGroup.partial_weight",
     "pwb": "BaseAmplitudeModel.partial_weight", "pwi": "partial_weight_interference", "cff": "cal_fitfractions",
     "ffn": "FitFractions.integral", "fi": "factor_iteration", "bam": "build_amp_matrix",
@@ -416,6 +425,8 @@ def s_prog(p):
         b = p[1]
         if b[0] in ("at", "vt", "mp"):
             t = [b[0]] + s_list(b[1], s_pv)
+        elif b[0] == "ats":  # for the model the sequence form IS the dict {trainable_vars[i]: seq[i]}
+            t = ["at"] + s_list(b[2], s_pv)
         elif b[0] == "ur":
             t = ["ur"] + s_list(b[1], s_sel)
         elif b[0] == "g1":
@@ -507,6 +518,9 @@ def probes(rig):
     P.append(("absTemp", "temp_params, body raises", {}, blk(("at", [(f[2], v[4])]), raise_)))
     P.append(("absTemp", "temp_params, second value rejected", {}, blk(("at", [(f[2], v[4]), (f[6], "bad")]))))
     P.append(("absTemp", "temp_params, normal exit", {}, blk(("at", [(f[2], v[4]), (f[6], v[5])]))))
+    tr = rig.trainable_idx()
+    P.append(("absTemp", "temp_params(list of all trainable values), normal exit", {}, blk(("ats", "list", [(i, v[(4 + j) % len(v)]) for j, i in enumerate(tr)]))))
+    P.append(("absTemp", "temp_params(ndarray of all trainable values), body raises", {}, blk(("ats", "ndarray", [(i, v[(7 + j) % len(v)]) for j, i in enumerate(tr)]), raise_)))
     P.append(("vmTemp", "vm.temp_params on a bounded variable", {"setp": (b0, v[9])}, blk(("vt", [(b0, v[6])]))))
     P.append(("vmTemp", "vm.temp_params, body raises", {}, blk(("vt", [(f[7], v[7])]), raise_)))
     P.append(("vmTemp", "vm.temp_params, second value rejected", {}, blk(("vt", [(f[7], v[7]), (f[8], "bad")]))))
@@ -621,9 +635,11 @@ def gen_pdict(rig, rnd, bad_ok, pool):
 
 
 def gen_block(rig, rnd):
-    k = rnd.choice(["at", "at", "vt", "vt", "mp", "mp", "ur", "ur", "g1", "tc"])
+    k = rnd.choice(["at", "at", "ats", "vt", "vt", "mp", "mp", "ur", "ur", "g1", "tc"])
     if k == "at":
         return ("at", gen_pdict(rig, rnd, True, rig.free))
+    if k == "ats":
+        return ("ats", rnd.choice(["list", "ndarray"]), [(i, rnd.choice(rig.rand_ids)) for i in rig.trainable_idx()])
     if k == "vt":
         return ("vt", gen_pdict(rig, rnd, True, rig.free + rig.bounded * 3))
     if k == "mp":
